@@ -319,6 +319,23 @@ Theorem C03_array_member_own : forall orc e f d p k v m m1,
 Proof. exact array_member_own. Qed.
 Print Assumptions C03_array_member_own.
 
+(* maps of scalars: every entry is stored under the key as written, in document order; arrays of
+   objects: one sub-message per element, each the decode of that element *)
+Theorem C03_map_entries_stored : forall orc e k f d ms acc l,
+  tr_map orc e f d (FScalar k) ms acc = Ok l ->
+  exists vals, l = acc ++ vals /\
+    Forall2 (fun kv kx => fst kx = fst kv /\ is_container (snd kv) = false /\
+                          scalar_from_go orc k (goval_of_json (snd kv)) = Ok (Some (snd kx))) ms vals.
+Proof. exact map_entries_stored. Qed.
+Print Assumptions C03_map_entries_stored.
+
+Theorem C03_array_objects_stored : forall orc e ref props, lookup e ref = Some (SObject props) ->
+  forall f d js acc l, tr_array orc e f d (FObject ref) js acc = Ok l ->
+  exists subs, l = acc ++ map VMsg subs /\
+    Forall2 (fun j sub => exists ms f', j = JObj ms /\ tr_object orc e f' d props ms [] [] = Ok sub) js subs.
+Proof. exact array_objects_stored. Qed.
+Print Assumptions C03_array_objects_stored.
+
 (* ------------------------------------------------------------------ documents: alternate spellings *)
 (* Leniency clause, at document level: [variant_members] (proofs/CodecDecVariants.v) relates two member
    lists of the same shape — same keys in the same order, to any depth through objects, oneofs, arrays
